@@ -39,6 +39,10 @@ var _ logiter = (*streamIter)(nil)
 
 // Next returns true, if there is element and fills t.
 func (i *streamIter) Next(r *logstorage.Record) (ok bool) {
+	if i.err != nil {
+		// Keep the first error: a failed stream stays failed.
+		return false
+	}
 	// Reset record.
 	*r = logstorage.Record{
 		Attrs:         otelstorage.Attrs(pcommon.NewMap()),
